@@ -3,6 +3,7 @@ package eng
 import (
 	"fmt"
 	"reflect"
+	"strings"
 	"unsafe"
 
 	"github.com/mlange-42/ark/ecs"
@@ -97,43 +98,47 @@ type Drv struct {
 	viaNewCtr       int
 	triedStructural bool
 	leaked          bool
+	curExch         typed.TExch // exchange object of the running op
+	args            []argGuard
+	Guard           bool // argument slices are watched / shared (off for concurrent use of the driver)
 	transient       typed.TFilter
 	exhausted       []int
 }
 
 // Stats are measured coverage counters.
 type Stats struct {
-	Ops          [NKinds]int64
-	Paths        [NPaths]int64
-	Panics       int64
-	ExpPanics    int64
-	Sweeps       int64
-	EntChecks    int64
-	CompChecks   int64
-	Queries      int64
-	QueryEnts    int64
-	CachedCmp    int64
-	BatchCb      int64
-	ObsJudged    int64
-	ObsFired     int64
-	ObsMay       int64
-	Probes       int64
-	TargetDeaths int64 // removed entities that had children
-	Detached     int64
-	Recycled     int64 // handles issued with generation > 0
-	MaxOpenQ     int64
-	LockChecks   int64
-	Masks        map[CSet]bool
-	FilterSpecs  map[string]bool
-	ShrinkCalls  int64
-	Resets       int64
-	StatsCalls   int64
-	ZeroChecks   int64
-	Misuse       map[string]int64
-	EvSeen       [NEv]int64
-	GCOrphans    int64
-	GCCollected  int64
-	GCChecks     int64
+	Ops              [NKinds]int64
+	Paths            [NPaths]int64
+	Panics           int64
+	NestedSameObject int64 // rejected calls made from a callback through the object the running op was called on
+	ExpPanics        int64
+	Sweeps           int64
+	EntChecks        int64
+	CompChecks       int64
+	Queries          int64
+	QueryEnts        int64
+	CachedCmp        int64
+	BatchCb          int64
+	ObsJudged        int64
+	ObsFired         int64
+	ObsMay           int64
+	Probes           int64
+	TargetDeaths     int64 // removed entities that had children
+	Detached         int64
+	Recycled         int64 // handles issued with generation > 0
+	MaxOpenQ         int64
+	LockChecks       int64
+	Masks            map[CSet]bool
+	FilterSpecs      map[string]bool
+	ShrinkCalls      int64
+	Resets           int64
+	StatsCalls       int64
+	ZeroChecks       int64
+	Misuse           map[string]int64
+	EvSeen           [NEv]int64
+	GCOrphans        int64
+	GCCollected      int64
+	GCChecks         int64
 }
 
 func NewStats() *Stats {
@@ -142,7 +147,7 @@ func NewStats() *Stats {
 
 // NewDrv creates a world with the given configuration.
 func NewDrv(name string, cfg Config, m *Model, st *Stats) *Drv {
-	d := &Drv{Name: name, Cfg: cfg, M: m, Stat: st, ByH: map[ecs.Entity]EID{}, tmaps: map[int]typed.TMap{}, touched: map[int]bool{}}
+	d := &Drv{Name: name, Cfg: cfg, M: m, Stat: st, Guard: true, ByH: map[ecs.Entity]EID{}, tmaps: map[int]typed.TMap{}, touched: map[int]bool{}}
 	d.W = ecs.NewWorld(cfg.Caps...)
 	d.U = d.W.Unsafe()
 	for k := 0; k < cfg.Fillers; k++ {
@@ -199,11 +204,68 @@ func (d *Drv) h(e EID) ecs.Entity {
 }
 
 func (d *Drv) hs(es []EID) []ecs.Entity {
-	r := make([]ecs.Entity, len(es))
+	r := guarded(d, "[]ecs.Entity", len(es), ecs.Entity{})
 	for i, e := range es {
 		r[i] = d.h(e)
 	}
+	return seal(d, r)
+}
+
+// RelCache holds the world-independent relation argument lists of the current case (nil: no sharing).
+var RelCache map[string][]ecs.Relation
+
+// argGuard watches one slice handed to the library as an argument: the library must neither modify it (including the
+// spare capacity behind its length) nor keep using it after the call returned - the caller may reuse it as a scratch buffer.
+type argGuard struct {
+	what   string
+	intact func() bool
+	poison func()
+}
+
+// guarded allocates an argument slice of length n with two spare elements of capacity.
+func guarded[T comparable](d *Drv, what string, n int, fill T) []T {
+	r := make([]T, n+2)
+	r[n], r[n+1] = fill, fill
+	return r[:n]
+}
+
+// seal registers a filled argument slice with the driver; fill is what the slice is overwritten with after the call.
+func seal[T comparable](d *Drv, r []T) []T {
+	if !d.Guard {
+		return r
+	}
+	full := r[:cap(r)]
+	cp := append([]T(nil), full...)
+	var zero T
+	d.args = append(d.args, argGuard{what: fmt.Sprintf("%T", r),
+		intact: func() bool {
+			if _, isRel := any(r).([]ecs.Relation); isRel {
+				return true // a Relation may carry a cached lookup
+			}
+			for i := range full {
+				if full[i] != cp[i] {
+					return false
+				}
+			}
+			return true
+		},
+		poison: func() {
+			for i := range full {
+				full[i] = zero
+			}
+		}})
 	return r
+}
+
+// flushArgs checks and then scribbles over all argument slices handed out since the last flush.
+func (d *Drv) flushArgs(where string) {
+	for i := range d.args {
+		if !d.args[i].intact() {
+			d.viol("C01", "caller-slice-modified", "%s: the library modified a caller-owned %s argument (or its spare capacity)", where, d.args[i].what)
+		}
+		d.args[i].poison()
+	}
+	d.args = d.args[:0]
 }
 
 func (d *Drv) bind(e EID, h ecs.Entity) {
@@ -245,11 +307,11 @@ func (d *Drv) resolve(h ecs.Entity) (EID, bool) {
 }
 
 func (d *Drv) ids(cs []int) []ecs.ID {
-	r := make([]ecs.ID, len(cs))
+	r := guarded(d, "[]ecs.ID", len(cs), ecs.ID{})
 	for i, c := range cs {
 		r[i] = d.ID[c]
 	}
-	return r
+	return seal(d, r)
 }
 
 func comps(cs []int) []ecs.Comp {
@@ -272,7 +334,30 @@ func (d *Drv) rels(rs []RelT, order []int, style int) []ecs.Relation {
 	if len(rs) == 0 {
 		return nil
 	}
-	out := make([]ecs.Relation, len(rs))
+	// Relation lists built by type or by index do not depend on the world: a caller may build them once and reuse
+	// them, also with other worlds. All drivers of a case share such lists (RelCache is reset per case); the library
+	// documents that it may cache a lookup inside a Relation, so their content is not compared. Lists built with
+	// RelID are world-specific: fresh per call and scribbled over afterwards.
+	var key string
+	if d.Guard && RelCache != nil {
+		if style != relByID {
+			var b strings.Builder
+			fmt.Fprint(&b, style, order)
+			for _, r := range rs {
+				fmt.Fprint(&b, " ", r.C, d.h(r.T))
+			}
+			key = b.String()
+		}
+		if c, ok := RelCache[key]; ok && key != "" {
+			return c
+		}
+	}
+	out := make([]ecs.Relation, len(rs), len(rs)+2)
+	if key == "" {
+		defer func() { seal(d, out) }()
+	} else {
+		RelCache[key] = out
+	}
 	for i, r := range rs {
 		st := style
 		if st == relByIdx {
@@ -302,11 +387,11 @@ func (d *Drv) targets(rs []RelT) []ecs.Entity {
 	if len(rs) == 0 {
 		return nil
 	}
-	r := make([]ecs.Entity, len(rs))
+	r := guarded(d, "[]ecs.Entity", len(rs), ecs.Entity{})
 	for i, x := range rs {
 		r[i] = d.h(x.T)
 	}
-	return r
+	return seal(d, r)
 }
 
 // buildTyped builds a typed filter (Filter0 or FilterN) from a spec.
